@@ -96,6 +96,8 @@ def svc_model(run, thorough):
     run.model_check("ServiceMC", svc_mc_cfg(rounds=1), "Service: 2 clients, 1 serve round, 2 expiries, Shutdown/Bind callers: all interleavings, safety + liveness", timeout=900)
     if thorough:
         run.model_check("ServiceMC", svc_mc_cfg(rounds=2, binds=3, ifaces='{"i1"}'), "Service: 2 clients, 2 rounds, 3 binds, registration: all interleavings, safety + liveness", timeout=1800)
+    # beyond TLC's two clients: the accounting core as an inductive invariant, discharged by Apalache for six clients
+    run.apalache_inductive("Accounting", "AccountedOnce / Pending for 6 clients, any number of steps")
     # the properties are not vacuous: with the code's former deviations switched on TLC refutes them
     run.expect_counterexample("ServiceMC", svc_mc_cfg(dev='{"TeardownLeavesListenerOpen"}', props=False, norace=False),
                               "EndpointReleased", invariant="EndpointReleased", timeout=600)
